@@ -680,8 +680,24 @@ func init() {
 		rule: "goroutine census and stream-table snapshots at the quiescent points of every run (after establishment, after draining, after releasing stalled actors, after ending every tunnel, after one more virtual hour); non-trivial = at least one RPC ended abnormally (cancel, deadline, rejection, tunnel end)"})
 	register(&checkDef{prop: "C06", parts: with(base(monC06Sender), ntSenderZeroWindow),
 		rule: "wire-tap invariant on every data and window_update frame; non-trivial = a sender actually had to wait for credit"})
-	register(&checkDef{prop: "C08", parts: with(base(monC08), ntMultiRPC),
-		rule: "new_stream order on the wire and handler invocation log vs caller log; non-trivial = at least two streams were opened"})
+	// C08: "exactly the named handler" also when two services on the tunnel share method names: a second service verif.Alt
+	// (same method names and shapes, its own handlers) is registered everywhere, and here about a third of the RPCs call it.
+	// (The flags are drawn after the shared generator's own draws, so the shared profiles are the same cases as elsewhere.)
+	c08base := base(monC08)
+	for i := range c08base {
+		g := c08base[i].gen
+		c08base[i].gen = func(t *rapid.T) *Case {
+			c := g(t)
+			for j := range c.RPCs {
+				if c.RPCs[j].Method == "" && rapid.IntRange(0, 2).Draw(t, fmt.Sprintf("r%d.alt", j)) == 0 {
+					c.RPCs[j].Alt = true
+				}
+			}
+			return c
+		}
+	}
+	register(&checkDef{prop: "C08", parts: with(c08base, ntMultiRPC),
+		rule: "new_stream order on the wire and handler invocation log vs caller log (the handler that ran is the one registered for the full service/method name: two services with the same method names are registered, about a third of the RPCs call the second); non-trivial = at least two streams were opened"})
 }
 
 func ntC02(c *Case, tr *Trace) bool {
@@ -735,6 +751,7 @@ func init() {
 	register(&checkDef{prop: "C07", level: "fault_enumeration", parts: []part{
 		{name: "c07", gen: genC07, monitors: []Monitor{monC07}, labels: labelsC07, nontrivial: ntC07, quick: 1000, thorough: 25000},
 		{name: "c07_sweep", gen: genC07Base, expand: expandC07, monitors: []Monitor{monC07}, labels: labelsC07, nontrivial: ntC07, quick: 3, thorough: 60},
+		{name: "c07_bounded", gen: genC07Bounded, monitors: []Monitor{monC07}, labels: labelsC07, nontrivial: ntC07, quick: 600, thorough: 15000},
 	},
 		rule: "0-3 bystanders plus one victim RPC (any shape; handler that runs until cancelled, stalled consumers, own error status, caller blocked in Header) whose context is cancelled, or whose deadline expires, at a drawn delivered-frame boundary k (part c07) or at EVERY boundary k in [0, F] of sampled workloads for both kinds (part c07_sweep); the tape orders the cancel frame against the peer's close/data/window frames and late frames are delivered; oracle: same-step local release with the right status, handler released once the cancel frame is processed, exactly one legal outcome (complete success incl. trailers, cancellation status, or the handler's own status), bystanders and tunnel unaffected; non-trivial = the cancellation fell strictly inside the victim's frame sequence or raced with close_stream"})
 }
